@@ -47,6 +47,7 @@ def tasks(tier, seed):
     for alpha, depth in plans:
         for first in range(len(alphabet(alpha))):
             ts.append({"alpha": alpha, "depth": depth, "first": first, "name": "%s/%d/%d" % (alpha, depth, first)})
+    ts.append({"part": "redirect", "alpha": "none", "depth": 0, "first": -1, "name": "redirect"})
     # the caller keeps ONE header option object (list / dict) and passes it to every handshake of the history
     for hdr in ("list", "dict"):
         for first in range(len(alphabet("small"))):
@@ -157,8 +158,75 @@ def target_class(t):
             "example.com:8080": "domain-with-port", "sub.example.com:443": "subdomain-with-port", "badexample.com:9000": "lookalike-with-port"}[t]
 
 
+def redirect_case(status, dom, pays, first_host, second_host, caller):
+    """The cookie is set by a REDIRECT response of the handshake (also 'a handshake response'); the next hop of the same connect() and a later
+    connection are the probes."""
+    from .. import simnet
+    lib.reset_globals()
+    env.install_urandom("counter")
+    net = simnet.Net()
+    seen = []
+
+    class P:
+        def __init__(self, k):
+            self.k, self.done = k, False
+
+        def on_send(self, sock, data):
+            if not self.done and b"\r\n\r\n" in bytes(sock.written):
+                self.done = True
+                req = HS.parse_request(bytes(sock.written))
+                seen.append((self.k, req["h"].get("host"), req["h"].get("cookie")))
+                if self.k == 0:
+                    lines = ["HTTP/1.1 %d Moved" % status, "Location: ws://%s/next" % second_host]
+                    lines += ["Set-Cookie: %s=%s%s" % (n, v, "; Domain=%s" % dom if dom else "") for n, v in pays]
+                    sock.stream += ("\r\n".join(lines) + "\r\nContent-Length: 0\r\n\r\n").encode()
+                else:
+                    sock.stream += HS.response_101(req["key"])
+
+    net.peer_for = lambda n_, s_, a_: P(len([x for x in net.socks if x.connected]) - 1)
+    simnet.install(net)
+    try:
+        opts = {"cookie": caller} if caller else {}
+        ws = lib.websocket.WebSocket()
+        ws.connect("ws://%s/" % first_host, **opts)
+        ws.close()
+        ws2 = lib.websocket.WebSocket()
+        ws2.connect("ws://%s/again" % second_host, **opts)
+        ws2.close()
+    finally:
+        simnet.uninstall()
+    label = "%d redirect from %s to %s carrying Set-Cookie %r Domain=%r (caller cookie %r)" % (status, first_host, second_host, pays, dom, caller)
+    items = []
+    if dom:
+        dd = dom.lower() if dom.startswith(".") else "." + dom.lower()
+        if covers(dd, second_host.lower()):
+            items = ["%s=%s" % kv for kv in sorted(dict(pays).items())]
+    parts = (["; ".join(items)] if items else []) + ([caller] if caller else [])
+    want = ["; ".join(parts)] if parts else None
+    for k, host, cookie in seen[1:]:
+        if cookie != want:
+            return ({"kind": "cookie-header-wrong", "target_class": "after-redirect", "leak": bool(cookie and not want), "caller_cookie": bool(caller)},
+                    "%s: request %d (Host %r) carried Cookie %r, reference jar says %r" % (label, k + 1, host, cookie, want))
+    if len(seen) != 3:
+        return ({"kind": "redirect-not-followed"}, "%s: %d requests were seen" % (label, len(seen)))
+    return None
+
+
 def run_task(desc):
     res = runner.new_result()
+    if desc.get("part") == "redirect":
+        n = 0
+        for status in (301, 302, 303, 307, 308):
+            for dom in ("example.com", ".Example.com", "other.org", None):
+                for pays in ((("a", "1"),), (("b", "2"), ("a", "3"))):
+                    for second in ("sub.example.com", "example.com", "badexample.com"):
+                        for caller in (None, "c=9"):
+                            n += 1
+                            f = redirect_case(status, dom, pays, "login.example.com", second, caller)
+                            if f:
+                                runner.add_failure(res, f[0], f[1], {"task": desc, "redirect": [status, dom, [list(p) for p in pays], "login.example.com", second, caller]})
+        res["execs"] = res["complete"] = res["distinct"] = n
+        return res
     h = Harness(desc)
     ex = Explorer(h, bound=None, merge=True, max_execs=3_000_000)
     ex.explore()
@@ -172,5 +240,9 @@ def run_task(desc):
 
 
 def replay(rep):
+    if rep.get("redirect"):
+        a = rep["redirect"]
+        f = redirect_case(a[0], a[1], tuple(tuple(p) for p in a[2]), a[3], a[4], a[5])
+        return None if f is None else {"sig": f[0], "what": f[1]}
     out, v, ch = replay_choices(Harness(rep["task"]), rep["choices"])
     return None if v is None else {"sig": v.sig, "what": v.what}
